@@ -39,7 +39,8 @@ CLAIMED = {
         note='Trusted: Coq kernel, translator (maps/tuples/bounds), harness (fake transport, hook), asyncio cooperative scheduling (atomic between awaits). '
              'Expiry is an arbitrary environment deletion here; its timing is C14. Whole sessions with connection loss while requests are outstanding are checked by '
              'an oracle on the numbers written on all connections; that nothing rewinds the generators is read off esme.py by the translator (C13_generators_only_advanced). The bind response is '
-             'taken positionally by connect(), outside the correlator. No axioms.',
+             'taken positionally by connect(), outside the correlator. Proved for the code after fix afc8c80 (a response of another type used up the outstanding '
+             'request; C13_other_type_leaves_request). No axioms.',
         technique='Coq invariant proofs by induction over event histories (occurrence-count invariant, ghost ids) + modular arithmetic; trace correspondence against the real ESME',
         design='6 (C13)'),
     'C17': dict(
@@ -89,10 +90,10 @@ CLAIMED = {
              'their modules) and by driving the real ESME sender with a recording limiter/throttle handler (every submit_sm write has its own '
              'limiter pass and a last answer allow; nothing is written after a denial).',
         note='Trusted: Coq kernel (QArith, lra/nra), harness; binary64 rounding is not modelled (inputs are dyadic; histories with an exact rounding '
-             'tie are skipped and counted); strictly increasing clock readings assumed (equal readings raise ZeroDivisionError in the code). The sender-level '
+             'tie are skipped and counted); The sender-level '
              'statement is checked on whole sessions (real limiter + real throttle handler on a virtual-time loop: wire-level rate bound, denial condition evaluated '
              'at every submit_sm write) and on traces of the real sender, not proved. Proved for the code after fixes b4cec97, dd102c0, a0e77b7 (throttle handler '
-             'asked before the wait in the rate limiter). Stated limit: a throttled response handled while the application\'s sending hook is suspended (between allow_request and the write) is not taken into account. No axioms.',
+             'asked before the wait in the rate limiter), ac3f46b (ZeroDivisionError on equal clock readings; the theorems now hold for non-decreasing clocks). Stated limit: a throttled response handled while the application\'s sending hook is suspended (between allow_request and the write) is not taken into account. No axioms.',
         technique='Coq proof: potential/supply argument by induction over clock readings (Q, lra/nra), liveness by state-invariance of failed readings; scripted-clock correspondence',
         design='6 (C18)'),
     'C14': dict(
@@ -139,7 +140,7 @@ CLAIMED = {
              'covered by the correspondence runs and the oracle. Hypotheses: error codes '
              'below 65532 (the internal status codes), segments of two messages with the same reference are not stored interleaved (references may coincide since fix 78b3543: a message accepted in '
              'full keeps its own status cell while a later message re-uses its 8-bit reference; regression histories on every run), no '
-             'expiry during the history. Receipt texts whose echoed text looks like receipt fields are generated. Proved for the code after fixes d1270d3 (status cell covers all segments from the first put) and 78b3543 (status cells keyed by reference alone). No axioms.',
+             'expiry during the history. Receipt texts whose echoed text looks like receipt fields are generated. Proved for the code after fixes d1270d3 (status cell covers all segments from the first put) 78b3543 (status cells keyed by reference alone) and 5cf0a3e (receipt text in message_payload). No axioms.',
         technique='Coq proof: per-message phase invariant over dict lookups, one lemma per event kind, induction over admissible event lists; PDU-level trace correspondence',
         design='6 (C02)'),
     'C03': dict(
@@ -309,7 +310,8 @@ CLAIMED = {
              'side (C06) are covered by the correspondence runs and the session oracle. '
              'Eventual delivery of the time-out relies on correlator traffic driving the sweep (keep-alive). Outside: the C14 known finding '
              '(response before put under write back-pressure: the message is then reported as timed out - still exactly one outcome). Proved for the '
-             'code after fixes 66de80c, d1270d3, 8306826, 93e2bc6, 057982f, 900ad9f. No axioms.',
+             'code after fixes 66de80c, d1270d3, 8306826, 93e2bc6, 057982f, 900ad9f, d022cf6, 78b3543 (status cells keyed by reference alone), 8bacccc (stale '
+             'segment entry under a re-used sequence number). No axioms.',
         technique='Coq proof: phase invariant over dict lookups with one lemma per event kind, induction over admissible event lists; PDU-level trace correspondence and session-level oracle on a virtual-time loop',
         design='6 (C01)'),
 }
